@@ -30,13 +30,14 @@ TRUSTED_BASE = [
 
 # which hand-proved tie modules (translation of the code == hand-written model) concern which property
 TIE_MODULES = {
-    "C01": ["Tad", "Rdfs", "RdfsLoop"], "C02": ["Tad"], "C03": ["Tad"], "C04": ["Tad"], "C05": ["Tad"],
-    "C06": ["Tad", "Rdfs", "RdfsLoop"], "C07": ["Rdfs", "RdfsLoop"], "C08": ["Gen", "Gen2"], "C11": ["Gen", "Gen2"],
-    "C13": ["Tad", "Rdfs", "RdfsLoop"], "C14": ["Tad"],
-    "C15": ["Gen2"], "C17": ["Gen2"],
+    "C01": ["Tad", "Rdfs", "RdfsLoop"], "C02": ["Tad"], "C03": ["Tad", "TransferTad"], "C04": ["Tad", "TransferTad"],
+    "C05": ["Tad", "TransferTad"], "C06": ["Tad", "Rdfs", "RdfsLoop"], "C07": ["Rdfs", "RdfsLoop"],
+    "C08": ["Gen", "Gen2", "TransferGen"], "C11": ["Gen", "Gen2", "TransferGen"], "C13": ["Tad", "Rdfs", "RdfsLoop"],
+    "C14": ["Tad"], "C15": ["Gen2", "TransferGen"], "C17": ["Gen2", "TransferGen"],
 }
 TIE_SOURCES = {"Gen": ["roberta_generator.py"], "Gen2": ["roberta_generator.py", "stochastic_game_from_roborta_board.py"],
-               "Rdfs": ["reverse_dfs.py"], "RdfsLoop": ["reverse_dfs.py"], "Tad": ["tad.py"]}
+               "TransferGen": ["roberta_generator.py", "stochastic_game_from_roborta_board.py"],
+               "Rdfs": ["reverse_dfs.py"], "RdfsLoop": ["reverse_dfs.py"], "Tad": ["tad.py"], "TransferTad": ["tad.py"]}
 
 
 def translator_tie(prop, env):
